@@ -4,6 +4,7 @@
 -/
 import Bnum.Lemmas.Cmp
 import Bnum.Model.Div
+import Bnum.Spec.Div
 namespace Bnum
 
 /-- `x ||| y = x + y` when `x` is a multiple of `2^w` and `y < 2^w` -/
@@ -186,4 +187,516 @@ theorem u_divRem_spec {w n : Nat} {a b : List Nat} (hK : KnuthD_correct w) (hw :
   u_divRem_spec_partial hw hn ha hb hb0 (Or.inr (Or.inr hK))
 
 end UI
+
+namespace DivL
+
+/-! ### pure `Int` facts: the other rounding conventions in terms of truncation -/
+
+theorem ediv_of_tdiv (a b : Int) (hb : b ≠ 0) :
+    a / b = if a < 0 ∧ a.tmod b ≠ 0 then (if b < 0 then a.tdiv b + 1 else a.tdiv b - 1)
+      else a.tdiv b := by
+  have h := @Int.tdiv_eq_ediv a b
+  simp only [Int.dvd_iff_tmod_eq_zero] at h
+  by_cases ha : 0 ≤ a
+  · simp only [ha, true_or, if_true] at h
+    rw [if_neg (by omega)]; omega
+  · by_cases hr : a.tmod b = 0
+    · simp only [hr, or_true, if_true] at h
+      rw [if_neg (by simp [hr])]; omega
+    · simp only [ha, hr, or_self, if_false] at h
+      rw [if_pos ⟨by omega, hr⟩]
+      by_cases hneg : b < 0
+      · rw [Int.sign_eq_neg_one_of_neg hneg] at h; rw [if_pos hneg]; omega
+      · rw [Int.sign_eq_one_of_pos (by omega)] at h; rw [if_neg hneg]; omega
+
+theorem emod_of_tmod (a b : Int) (hb : b ≠ 0) :
+    a % b = if a.tmod b < 0 then (if b < 0 then a.tmod b - b else a.tmod b + b) else a.tmod b := by
+  have h := @Int.tmod_eq_emod a b
+  simp only [Int.dvd_iff_tmod_eq_zero] at h
+  have hnn : 0 ≤ a % b := Int.emod_nonneg a hb
+  have hlt : a % b < b.natAbs := by
+    have := Int.emod_lt a hb; omega
+  by_cases hc : 0 ≤ a ∨ a.tmod b = 0
+  · simp only [hc, if_true] at h
+    rw [if_neg (by omega)]; omega
+  · simp only [hc, if_false] at h
+    rw [if_pos (by omega)]
+    split <;> omega
+
+theorem fdiv_of_tdiv (a b : Int) (hb : b ≠ 0) :
+    a.fdiv b = if a.tmod b = 0 ∨ (a < 0 ↔ b < 0) then a.tdiv b else a.tdiv b - 1 := by
+  have h := @Int.fdiv_eq_ediv a b
+  simp only [Int.dvd_iff_tmod_eq_zero] at h
+  rw [ediv_of_tdiv a b hb] at h
+  rw [h]
+  by_cases hr : a.tmod b = 0
+  · simp [hr]
+  · by_cases ha : a < 0 <;> by_cases hn : b < 0 <;>
+      simp only [ha, hn, hr, true_and, false_and, if_true, if_false, or_false, false_or, iff_true,
+        iff_false, not_true, not_false_iff, ne_eq] <;> split <;> omega
+
+theorem cdiv_of_tdiv (a b : Int) (hb : b ≠ 0) :
+    Spec.cdiv a b = if a.tmod b = 0 ∨ ¬ (a < 0 ↔ b < 0) then a.tdiv b else a.tdiv b + 1 := by
+  unfold Spec.cdiv
+  rw [fdiv_of_tdiv (-a) b hb, Int.neg_tmod, Int.neg_tdiv]
+  by_cases hr : a.tmod b = 0
+  · simp [hr]
+  · have hr' : ¬ (-a.tmod b = 0) := by omega
+    have ha0 : a ≠ 0 := by rintro rfl; simp at hr
+    by_cases ha : a < 0 <;> by_cases hn : b < 0 <;>
+      simp only [ha, hn, hr, hr', if_true, if_false, or_false, false_or, iff_true,
+        iff_false, not_true, not_false_iff, Int.neg_lt_zero_iff] <;> split <;> omega
+
+/-- `next_multiple_of` on exact integers, in the shape the signed code computes it -/
+theorem nextMultiple_eq (a b : Int) (hb : b ≠ 0) :
+    Spec.nextMultiple a b =
+      if a % b = 0 then a else if 0 < b then a + (b - a % b) else a - a % b := by
+  unfold Spec.nextMultiple Spec.cdiv
+  have h1 := Int.mul_fdiv_add_fmod (-a) b
+  have h2 := @Int.fmod_eq_emod (-a) b
+  simp only [@Int.neg_emod a b, Int.dvd_iff_emod_eq_zero] at h2
+  have e : b * -(-a).fdiv b = a + (-a).fmod b := by
+    have : b * -(-a).fdiv b = -(b * (-a).fdiv b) := by ring
+    rw [this]; omega
+  rw [e, h2]
+  have hnn : 0 ≤ a % b := Int.emod_nonneg a hb
+  have hlt : a % b < b.natAbs := by have := Int.emod_lt a hb; omega
+  split_ifs <;> omega
+
+/-- everything the overflow analysis of the signed layer needs about truncated division -/
+theorem tdiv_facts (a b : Int) (hb : b ≠ 0) :
+    (a.tdiv b).natAbs ≤ a.natAbs ∧ (a.tmod b).natAbs < b.natAbs ∧
+    (a.tmod b ≠ 0 → 2 * (a.tdiv b).natAbs + 1 ≤ a.natAbs) ∧
+    (b.natAbs = 1 → a.tmod b = 0 ∧ (a.tdiv b).natAbs = a.natAbs) ∧
+    (0 ≤ a → 0 ≤ a.tmod b) ∧ (a ≤ 0 → a.tmod b ≤ 0) := by
+  have hq := Int.natAbs_tdiv a b
+  have hr := Int.natAbs_tmod a b
+  have hy : 0 < b.natAbs := by omega
+  have hdm := Nat.div_add_mod a.natAbs b.natAbs
+  have hml := Nat.mod_lt a.natAbs hy
+  have hdl : a.natAbs / b.natAbs ≤ a.natAbs := Nat.div_le_self _ _
+  change (a.tdiv b).natAbs = a.natAbs / b.natAbs at hq
+  refine ⟨by omega, by omega, ?_, ?_, ?_, ?_⟩
+  · intro h
+    have h2 : 2 ≤ b.natAbs := by omega
+    have : 2 * (a.natAbs / b.natAbs) ≤ b.natAbs * (a.natAbs / b.natAbs) := Nat.mul_le_mul_right _ h2
+    omega
+  · intro h1
+    rw [h1, Nat.mod_one] at hr
+    rw [h1, Nat.div_one] at hq
+    exact ⟨by omega, hq⟩
+  · intro h; exact Int.tmod_nonneg b h
+  · intro h
+    have := Int.tmod_nonneg (a := -a) b (by omega)
+    rw [Int.neg_tmod] at this; omega
+
+theorem tdiv_sign (a b : Int) :
+    ((0 ≤ a ∧ 0 ≤ b) ∨ (a ≤ 0 ∧ b ≤ 0) → 0 ≤ a.tdiv b) ∧
+    ((0 ≤ a ∧ b ≤ 0) ∨ (a ≤ 0 ∧ 0 ≤ b) → a.tdiv b ≤ 0) := by
+  have key : ∀ x y : Nat, (0 : Int) ≤ ((x / y : Nat) : Int) ∧ ((x / y : Nat) : Int) ≤ x ∧
+      (y = 0 → ((x / y : Nat) : Int) = 0) := fun x y =>
+    ⟨Int.natCast_nonneg _, by exact_mod_cast Nat.div_le_self x y, by rintro rfl; simp⟩
+  obtain ⟨x, rfl | rfl⟩ := Int.eq_nat_or_neg a <;> obtain ⟨y, rfl | rfl⟩ := Int.eq_nat_or_neg b <;>
+    simp only [Int.neg_tdiv, Int.tdiv_neg, ← Int.ofNat_tdiv, Int.neg_neg] <;>
+    obtain ⟨k1, k2, k3⟩ := key x y <;>
+    generalize ((x / y : Nat) : Int) = z at * <;> omega
+
+/-- quotient and remainder are unique: truncated and Euclidean convention -/
+theorem divRem_unique_trunc {a b q r : Int} (hb : b ≠ 0) (h1 : a = q * b + r)
+    (h2 : r.natAbs < b.natAbs) (h3 : (0 ≤ a → 0 ≤ r) ∧ (a ≤ 0 → r ≤ 0)) :
+    q = a.tdiv b ∧ r = a.tmod b := by
+  have e := Int.mul_tdiv_add_tmod a b
+  obtain ⟨f1, f2, -, -, f5, f6⟩ := tdiv_facts a b hb
+  have hd : b * (q - a.tdiv b) = a.tmod b - r := by rw [Int.mul_sub]; linarith [Int.mul_comm q b]
+  have hq : q - a.tdiv b = 0 := by
+    by_contra hne
+    have hle : b.natAbs ≤ (b * (q - a.tdiv b)).natAbs := by
+      rw [Int.natAbs_mul]
+      exact Nat.le_mul_of_pos_right _ (by omega)
+    rw [hd] at hle
+    omega
+  have hq' : q = a.tdiv b := by omega
+  refine ⟨hq', ?_⟩
+  rw [hq] at hd; simp at hd; omega
+
+theorem divRem_unique_euclid {a b q r : Int} (hb : b ≠ 0) (h1 : a = q * b + r)
+    (h2 : 0 ≤ r) (h3 : r < b.natAbs) : q = a / b ∧ r = a % b := by
+  have e := Int.mul_ediv_add_emod a b
+  have f1 := Int.emod_nonneg a hb
+  have f2 : a % b < b.natAbs := by have := Int.emod_lt a hb; omega
+  have hd : b * (q - a / b) = a % b - r := by rw [Int.mul_sub]; linarith [Int.mul_comm q b]
+  have hq : q - a / b = 0 := by
+    by_contra hne
+    have hle : b.natAbs ≤ (b * (q - a / b)).natAbs := by
+      rw [Int.natAbs_mul]
+      exact Nat.le_mul_of_pos_right _ (by omega)
+    rw [hd] at hle
+    omega
+  have hq' : q = a / b := by omega
+  refine ⟨hq', ?_⟩
+  rw [hq] at hd; simp at hd; omega
+
+end DivL
+
+namespace DivL
+
+/-! ### the `cfg(debug_assertions)`-dependent operators when the exact result is representable -/
+
+theorem ovfS_op {w n : Nat} {p : List Nat × Bool} {z : Int} (h : OvfS w n p z)
+    (hrep : repS (M w n) z) (dbg : Bool) :
+    (if dbg then Outcome.expect (tupleToOption p) else Outcome.ok p.1) = .ok p.1 ∧
+      WF w n p.1 ∧ S w p.1 = z := by
+  obtain ⟨h1, h2, h3⟩ := h
+  have hf : p.2 = false := by rw [h3]; simpa using hrep
+  refine ⟨?_, h1, by rw [h2, wrapS_of_rep (M_pos w n) hrep]⟩
+  cases dbg
+  · rfl
+  · simp [tupleToOption, hf, Outcome.expect]
+
+theorem ovfU_op {w n : Nat} {p : List Nat × Bool} {z : Int} (h : OvfU w n p z)
+    (hrep : repU (M w n) z) (dbg : Bool) :
+    (if dbg then Outcome.expect (tupleToOption p) else Outcome.ok p.1) = .ok p.1 ∧
+      WF w n p.1 ∧ (U w p.1 : Int) = z := by
+  obtain ⟨h1, h2, h3⟩ := h
+  have hf : p.2 = false := by rw [h3]; simpa using hrep
+  refine ⟨?_, h1, by rw [h2, wrapU_of_rep hrep]⟩
+  cases dbg
+  · rfl
+  · simp [tupleToOption, hf, Outcome.expect]
+
+theorem iOpNeg_ok {w n : Nat} {a : List Nat} (hw : 2 ≤ w) (hn : 1 ≤ n) (ha : WF w n a)
+    (hrep : repS (M w n) (- S w a)) (dbg : Bool) :
+    ∃ r, KD.iOpNeg dbg w a = .ok r ∧ WF w n r ∧ S w r = - S w a :=
+  ⟨_, ovfS_op (II.overflowingNeg_spec hw hn ha) hrep dbg⟩
+
+theorem iOpAdd_ok {w n : Nat} {a b : List Nat} (hw : 2 ≤ w) (hn : 1 ≤ n) (ha : WF w n a)
+    (hb : WF w n b) (hrep : repS (M w n) (S w a + S w b)) (dbg : Bool) :
+    ∃ r, KD.iOpAdd dbg w a b = .ok r ∧ WF w n r ∧ S w r = S w a + S w b := by
+  cases dbg
+  · obtain ⟨h1, h2⟩ := II.wrappingAdd_spec ha hb
+    exact ⟨_, rfl, h1, by rw [h2, wrapS_of_rep (M_pos w n) hrep]⟩
+  · exact ⟨_, ovfS_op (II.overflowingAdd_spec hw hn ha hb) hrep true⟩
+
+theorem iOpSub_ok {w n : Nat} {a b : List Nat} (hw : 2 ≤ w) (hn : 1 ≤ n) (ha : WF w n a)
+    (hb : WF w n b) (hrep : repS (M w n) (S w a - S w b)) (dbg : Bool) :
+    ∃ r, KD.iOpSub dbg w a b = .ok r ∧ WF w n r ∧ S w r = S w a - S w b := by
+  cases dbg
+  · obtain ⟨h1, h2⟩ := II.wrappingSub_spec ha hb
+    exact ⟨_, rfl, h1, by rw [h2, wrapS_of_rep (M_pos w n) hrep]⟩
+  · exact ⟨_, ovfS_op (II.overflowingSub_spec hw hn ha hb) hrep true⟩
+
+theorem uOpAdd_ok {w n : Nat} {a b : List Nat} (ha : WF w n a)
+    (hb : WF w n b) (hrep : U w a + U w b < M w n) (dbg : Bool) :
+    ∃ r, KD.uOpAdd dbg w a b = .ok r ∧ WF w n r ∧ U w r = U w a + U w b := by
+  obtain ⟨h1, h2, h3⟩ := ovfU_op (UI.overflowingAdd_spec ha hb) (by unfold repU; omega) dbg
+  exact ⟨_, h1, h2, by exact_mod_cast h3⟩
+
+theorem uOpSub_ok {w n : Nat} {a b : List Nat} (ha : WF w n a)
+    (hb : WF w n b) (hrep : U w b ≤ U w a) (dbg : Bool) :
+    ∃ r, KD.uOpSub dbg w a b = .ok r ∧ WF w n r ∧ U w r = U w a - U w b := by
+  have := U_lt ha
+  obtain ⟨h1, h2, h3⟩ := ovfU_op (UI.overflowingSub_spec ha hb) (by unfold repU; omega) dbg
+  exact ⟨_, h1, h2, by omega⟩
+
+theorem S_inj {w n : Nat} {x y : List Nat} (hx : WF w n x) (hy : WF w n y)
+    (h : S w x = S w y) : x = y := by
+  apply U_injective hx hy
+  have := S_cases hx; have := S_cases hy
+  have := U_lt hx; have := U_lt hy
+  omega
+
+theorem isOne_iff_U {w n : Nat} {b : List Nat} (hw : 1 ≤ w) (hb : WF w n b) :
+    isOne b = true ↔ U w b = 1 := by
+  match b, hb with
+  | [], _ => simp [isOne]
+  | d :: ds, hb =>
+    have hd : d < B w := hb.2 d (by simp)
+    have hB := B_ge_two hw
+    have hz := isZero_iff_U (w := w) ds
+    unfold isOne
+    by_cases h1 : d = 1
+    · subst h1; simp only [bne_self_eq_false, Bool.false_eq_true, if_false, U_cons]
+      rw [hz]; constructor
+      · intro h; rw [h]; simp
+      · intro h
+        rcases Nat.eq_zero_or_pos (U w ds) with h0 | h0
+        · exact h0
+        · have : B w * 1 ≤ B w * U w ds := Nat.mul_le_mul_left _ h0
+          omega
+    · simp only [U_cons, bne_iff_ne, ne_eq, h1, not_false_eq_true, if_true, Bool.false_eq_true,
+        false_iff]
+      intro h
+      rcases Nat.eq_zero_or_pos (U w ds) with h0 | h0
+      · rw [h0] at h; omega
+      · have : B w * 1 ≤ B w * U w ds := Nat.mul_le_mul_left _ h0
+        omega
+
+end DivL
+
+/-- `BUint::div_rem_unchecked` is correct on all `n`-digit operands -/
+def UDivSpec (w n : Nat) : Prop :=
+  ∀ a b, WF w n a → WF w n b → U w b ≠ 0 → UDivRes w n a b
+
+theorem UDivSpec_of_KnuthD {w n : Nat} (hK : KnuthD_correct w) (hw : 1 ≤ w) (hn : 1 ≤ n) :
+    UDivSpec w n := fun _ _ ha hb hb0 => UI.u_divRem_spec hK hw hn ha hb hb0
+
+/-- single-digit integers never reach Algorithm D -/
+theorem UDivSpec_one {w : Nat} (hw : 1 ≤ w) : UDivSpec w 1 := by
+  intro a b ha hb hb0
+  refine UI.u_divRem_spec_partial hw (Nat.le_refl 1) ha hb hb0 (Or.inl ?_)
+  match b, hb with
+  | [d], _ => rfl
+  | [], hb => exact absurd hb.1 (by simp)
+  | _ :: _ :: _, hb => exact absurd hb.1 (by simp)
+
+namespace II
+open DivL
+
+/-- the representable range in terms of `natAbs` -/
+theorem S_natAbs_le {w n : Nat} {x : List Nat} (hw : 1 ≤ w) (hn : 1 ≤ n) (hx : WF w n x) :
+    (S w x).natAbs ≤ M w n / 2 ∧ (0 ≤ S w x → (S w x).natAbs < M w n / 2) := by
+  have h := S_repS hw hn hx
+  have hm := M_even hw hn
+  unfold repS at h
+  omega
+
+theorem i_divRemUnchecked_spec {w n : Nat} {a b : List Nat} (hw : 2 ≤ w) (hn : 1 ≤ n)
+    (hU : UDivSpec w n) (ha : WF w n a) (hb : WF w n b) (hb0 : S w b ≠ 0)
+    (hov : ¬ (S w a = -((M w n / 2 : Nat) : Int) ∧ S w b = -1)) (dbg : Bool) :
+    ∃ q r, divRemUnchecked dbg w a b = .ok (q, r) ∧ WF w n q ∧ WF w n r ∧
+      S w q = (S w a).tdiv (S w b) ∧ S w r = (S w a).tmod (S w b) := by
+  have hw1 : 1 ≤ w := by omega
+  have hM4 := M_ge_four hw hn
+  have hme := M_even hw1 hn
+  unfold divRemUnchecked
+  rw [ha.1]
+  by_cases hc : (II.eq a (iMin w n) && isOne b) = true
+  · rw [if_pos hc]
+    rw [Bool.and_eq_true] at hc
+    obtain ⟨c1, c2⟩ := hc
+    have e1 : a = iMin w n := by
+      unfold II.eq at c1
+      exact (UI.eq_iff a _ (by rw [ha.1, (WF_iMin hw1 hn).1])).mp c1
+    have e2 : U w b = 1 := (isOne_iff_U hw1 hb).mp c2
+    have e3 : S w b = 1 := by
+      rw [S_eq hb]; unfold toInt; rw [e2, if_pos (by omega)]; rfl
+    refine ⟨_, _, rfl, ha, WF_zero w n, ?_, ?_⟩
+    · rw [e3, Int.tdiv_one]
+    · rw [e3, S_zero]; simp
+  · rw [if_neg hc]
+    have hc' : ¬ (S w a = -((M w n / 2 : Nat) : Int) ∧ S w b = 1) := by
+      rintro ⟨g1, g2⟩
+      apply hc
+      rw [Bool.and_eq_true]
+      constructor
+      · unfold II.eq
+        rw [UI.eq_iff_U ha (WF_iMin hw1 hn)]
+        have := S_inj ha (WF_iMin hw1 hn) (by rw [g1, S_iMin hw1 hn])
+        rw [this]
+      · rw [isOne_iff_U hw1 hb]
+        have := S_of_nonneg hb (by omega)
+        omega
+    obtain ⟨wa, ua⟩ := unsignedAbs_spec hw hn ha
+    obtain ⟨wb, ub⟩ := unsignedAbs_spec hw hn hb
+    obtain ⟨q, r, hqr, wq, wr, uq, ur⟩ := hU _ _ wa wb (by rw [ub]; omega)
+    rw [hqr]
+    simp only
+    rw [ua, ub] at uq ur
+    -- facts about the magnitudes
+    obtain ⟨ba1, ba2⟩ := S_natAbs_le hw1 hn ha
+    obtain ⟨bb1, bb2⟩ := S_natAbs_le hw1 hn hb
+    obtain ⟨f1, f2, f3, f4, f5, f6⟩ := tdiv_facts (S w a) (S w b) hb0
+    obtain ⟨g1, g2⟩ := tdiv_sign (S w a) (S w b)
+    have hq := Int.natAbs_tdiv (S w a) (S w b)
+    change ((S w a).tdiv (S w b)).natAbs = (S w a).natAbs / (S w b).natAbs at hq
+    have hr := Int.natAbs_tmod (S w a) (S w b)
+    have h2q : 2 ≤ (S w b).natAbs → 2 * ((S w a).tdiv (S w b)).natAbs ≤ (S w a).natAbs := by
+      intro h2
+      have := Nat.div_add_mod (S w a).natAbs (S w b).natAbs
+      have : 2 * ((S w a).natAbs / (S w b).natAbs) ≤ (S w b).natAbs * ((S w a).natAbs / (S w b).natAbs) :=
+        Nat.mul_le_mul_right _ h2
+      omega
+    rw [← hq] at uq
+    rw [← hr] at ur
+    have sq := S_cases wq
+    have sr := S_cases wr
+    have ltq := S_repS hw1 hn wq
+    have ltr := S_repS hw1 hn wr
+    unfold repS at ltq ltr
+    generalize (S w a).tdiv (S w b) = Q at *
+    generalize (S w a).tmod (S w b) = R at *
+    rw [isNegative_eq_decide hw1 hn ha, isNegative_eq_decide hw1 hn hb]
+    by_cases na : S w a < 0 <;> by_cases nb : S w b < 0 <;>
+      simp only [na, nb, decide_true, decide_false]
+    · -- (true, true)
+      obtain ⟨r', e1, e2, e3⟩ := iOpNeg_ok hw hn wr (by unfold repS; omega) dbg
+      rw [e1]
+      exact ⟨_, _, rfl, wq, e2, by omega, by omega⟩
+    · -- (true, false)
+      obtain ⟨q', d1, d2, d3⟩ := iOpNeg_ok hw hn wq (by unfold repS; omega) dbg
+      obtain ⟨r', e1, e2, e3⟩ := iOpNeg_ok hw hn wr (by unfold repS; omega) dbg
+      rw [d1]; simp only; rw [e1]
+      exact ⟨_, _, rfl, d2, e2, by omega, by omega⟩
+    · -- (false, true)
+      obtain ⟨q', d1, d2, d3⟩ := iOpNeg_ok hw hn wq (by unfold repS; omega) dbg
+      rw [d1]
+      exact ⟨_, _, rfl, d2, wr, by omega, by omega⟩
+    · exact ⟨_, _, rfl, wq, wr, by omega, by omega⟩
+
+end II
+
+namespace II
+open DivL
+
+/-! ### recognisers used by the signed guards -/
+
+theorem S_negOne {w n : Nat} (hw : 1 ≤ w) (hn : 1 ≤ n) : S w (negOne w n) = -1 := by
+  unfold negOne
+  rw [S_eq (WF_allOnes w n), U_allOnes]
+  have := M_even hw hn; have := M_pos w n
+  unfold toInt; rw [if_neg (by omega)]; omega
+
+theorem eq_iff_S' {w n : Nat} {a c : List Nat} (ha : WF w n a) (hc : WF w n c) :
+    II.eq a c = true ↔ S w a = S w c := by
+  unfold II.eq
+  rw [UI.eq_iff a c (by rw [ha.1, hc.1])]
+  exact ⟨fun h => by rw [h], S_inj ha hc⟩
+
+theorem WF_negOne (w n : Nat) : WF w n (negOne w n) := WF_allOnes w n
+
+theorem eqMin_iff {w n : Nat} {a : List Nat} (hw : 1 ≤ w) (hn : 1 ≤ n) (ha : WF w n a) :
+    II.eq a (iMin w n) = true ↔ S w a = -((M w n / 2 : Nat) : Int) := by
+  rw [eq_iff_S' ha (WF_iMin hw hn), S_iMin hw hn]
+
+theorem eqNegOne_iff {w n : Nat} {b : List Nat} (hw : 1 ≤ w) (hn : 1 ≤ n) (hb : WF w n b) :
+    II.eq b (negOne w n) = true ↔ S w b = -1 := by
+  rw [eq_iff_S' hb (WF_negOne w n), S_negOne hw hn]
+
+theorem isOne_iff_S {w n : Nat} {b : List Nat} (hw : 2 ≤ w) (hn : 1 ≤ n) (hb : WF w n b) :
+    isOne b = true ↔ S w b = 1 := by
+  rw [isOne_iff_U (by omega) hb, S_eq hb]
+  have := U_lt hb; have := M_ge_four hw hn
+  unfold toInt; split <;> omega
+
+theorem isZero_iff_S {w n : Nat} {b : List Nat} (hb : WF w n b) :
+    isZero b = true ↔ S w b = 0 := by
+  rw [isZero_iff_U (w := w), S_eq hb]
+  have := U_lt hb
+  unfold toInt; split <;> omega
+
+/-- the guard of the overflowing forms: `self == MIN && rhs == NEG_ONE` -/
+theorem ovfGuard_iff {w n : Nat} {a b : List Nat} (hw : 1 ≤ w) (hn : 1 ≤ n) (ha : WF w n a)
+    (hb : WF w n b) : (II.eq a (iMin w n) && II.eq b (negOne w n)) = true ↔
+      (S w a = -((M w n / 2 : Nat) : Int) ∧ S w b = -1) := by
+  rw [Bool.and_eq_true, eqMin_iff hw hn ha, eqNegOne_iff hw hn hb]
+
+theorem ovfGuard_false {w n : Nat} {a b : List Nat} (hw : 1 ≤ w) (hn : 1 ≤ n) (ha : WF w n a)
+    (hb : WF w n b) (hov : ¬ (S w a = -((M w n / 2 : Nat) : Int) ∧ S w b = -1)) :
+    (II.eq a (iMin w n) && II.eq b (negOne w n)) = false := by
+  rw [← Bool.not_eq_true, ovfGuard_iff hw hn ha hb]; exact hov
+
+theorem isZero_false {w n : Nat} {b : List Nat} (hb : WF w n b) (hb0 : S w b ≠ 0) :
+    isZero b = false := by
+  rw [← Bool.not_eq_true, isZero_iff_S hb]; exact hb0
+
+/-! ### the four `overflowing_*` forms away from the two exceptional divisors -/
+
+section
+variable {w n : Nat} {a b : List Nat} (hw : 2 ≤ w) (hn : 1 ≤ n) (hU : UDivSpec w n)
+  (ha : WF w n a) (hb : WF w n b) (hb0 : S w b ≠ 0)
+  (hov : ¬ (S w a = -((M w n / 2 : Nat) : Int) ∧ S w b = -1)) (dbg : Bool)
+include hw hn hU ha hb hb0 hov
+
+theorem i_overflowingDiv_spec :
+    ∃ q, overflowingDiv dbg w a b = .ok (q, false) ∧ WF w n q ∧ S w q = (S w a).tdiv (S w b) := by
+  have hw1 : 1 ≤ w := by omega
+  unfold overflowingDiv
+  rw [ha.1]; dsimp only
+  rw [isZero_false hb hb0, ovfGuard_false hw1 hn ha hb hov]
+  simp only [Bool.false_eq_true, if_false]
+  by_cases hc : (II.eq a (iMin w n) && isOne b) = true
+  · rw [if_pos hc]
+    rw [Bool.and_eq_true, isOne_iff_S hw hn hb] at hc
+    exact ⟨_, rfl, ha, by rw [hc.2, Int.tdiv_one]⟩
+  · rw [if_neg hc]
+    obtain ⟨q, r, h, wq, -, sq, -⟩ := i_divRemUnchecked_spec hw hn hU ha hb hb0 hov dbg
+    rw [h]; exact ⟨_, rfl, wq, sq⟩
+
+theorem i_overflowingRem_spec :
+    ∃ r, overflowingRem dbg w a b = .ok (r, false) ∧ WF w n r ∧ S w r = (S w a).tmod (S w b) := by
+  have hw1 : 1 ≤ w := by omega
+  unfold overflowingRem
+  rw [ha.1]; dsimp only
+  rw [isZero_false hb hb0, ovfGuard_false hw1 hn ha hb hov]
+  simp only [Bool.false_eq_true, if_false]
+  obtain ⟨q, r, h, -, wr, -, sr⟩ := i_divRemUnchecked_spec hw hn hU ha hb hb0 hov dbg
+  rw [h]; exact ⟨_, rfl, wr, sr⟩
+
+theorem i_overflowingDivEuclid_spec :
+    ∃ q, overflowingDivEuclid dbg w a b = .ok (q, false) ∧ WF w n q ∧ S w q = S w a / S w b := by
+  have hw1 : 1 ≤ w := by omega
+  unfold overflowingDivEuclid
+  rw [ha.1]; dsimp only
+  rw [isZero_false hb hb0, ovfGuard_false hw1 hn ha hb hov]
+  simp only [Bool.false_eq_true, if_false]
+  by_cases hc : (II.eq a (iMin w n) && isOne b) = true
+  · rw [if_pos hc]
+    rw [Bool.and_eq_true, isOne_iff_S hw hn hb] at hc
+    exact ⟨_, rfl, ha, by rw [hc.2, Int.ediv_one]⟩
+  · rw [if_neg hc]
+    obtain ⟨q, r, h, wq, wr, sq, sr⟩ := i_divRemUnchecked_spec hw hn hU ha hb hb0 hov dbg
+    rw [h]; simp only
+    rw [ediv_of_tdiv _ _ hb0, ← sq, ← sr]
+    rw [isNegative_eq_decide hw1 hn ha, isNegative_eq_decide hw1 hn hb]
+    have hz : isZero r = decide (S w r = 0) := bool_eq_decide (isZero_iff_S wr)
+    rw [hz]
+    obtain ⟨ba1, -⟩ := S_natAbs_le hw1 hn ha
+    obtain ⟨-, -, f3, -, -, -⟩ := tdiv_facts (S w a) (S w b) hb0
+    rw [← sq, ← sr] at f3
+    have hM4 := M_ge_four hw hn
+    have hme := M_even hw1 hn
+    have s1 := S_one (n := n) hw hn
+    by_cases na : S w a < 0 <;> by_cases nr : S w r = 0 <;>
+      simp only [na, nr, decide_true, decide_false, Bool.and_true, Bool.and_false, Bool.not_true,
+        Bool.not_false, Bool.false_eq_true, if_false, if_true,
+        true_and, false_and, ne_eq, not_true, not_false_iff]
+    · exact ⟨_, rfl, wq, rfl⟩
+    · by_cases nb : S w b < 0 <;> simp only [nb, decide_true, decide_false, if_true, if_false,
+        Bool.false_eq_true]
+      · obtain ⟨d, e1, e2, e3⟩ := iOpAdd_ok hw hn wq (WF_one hw1 hn)
+          (by rw [s1]; unfold repS; omega) dbg
+        rw [e1]; exact ⟨_, rfl, e2, by rw [e3, s1]⟩
+      · obtain ⟨d, e1, e2, e3⟩ := iOpSub_ok hw hn wq (WF_one hw1 hn)
+          (by rw [s1]; unfold repS; omega) dbg
+        rw [e1]; exact ⟨_, rfl, e2, by rw [e3, s1]⟩
+    · exact ⟨_, rfl, wq, rfl⟩
+    · exact ⟨_, rfl, wq, rfl⟩
+
+theorem i_overflowingRemEuclid_spec :
+    ∃ r, overflowingRemEuclid dbg w a b = .ok (r, false) ∧ WF w n r ∧ S w r = S w a % S w b := by
+  have hw1 : 1 ≤ w := by omega
+  unfold overflowingRemEuclid
+  rw [ha.1]; dsimp only
+  rw [isZero_false hb hb0, ovfGuard_false hw1 hn ha hb hov]
+  simp only [Bool.false_eq_true, if_false]
+  obtain ⟨q, r, h, wq, wr, sq, sr⟩ := i_divRemUnchecked_spec hw hn hU ha hb hb0 hov dbg
+  rw [h]; simp only
+  rw [emod_of_tmod _ _ hb0, ← sr]
+  rw [isNegative_eq_decide hw1 hn wr, isNegative_eq_decide hw1 hn hb]
+  obtain ⟨bb1, -⟩ := S_natAbs_le hw1 hn hb
+  obtain ⟨-, f2, -, -, -, -⟩ := tdiv_facts (S w a) (S w b) hb0
+  rw [← sr] at f2
+  have hme := M_even hw1 hn
+  by_cases nr : S w r < 0 <;> simp only [nr, decide_true, decide_false, if_true, if_false,
+    Bool.false_eq_true]
+  · by_cases nb : S w b < 0 <;> simp only [nb, decide_true, decide_false, if_true, if_false,
+      Bool.false_eq_true]
+    · obtain ⟨e1, e2⟩ := wrappingSub_spec wr hb
+      exact ⟨_, rfl, e1, by rw [e2, wrapS_of_rep (M_pos w n) (by unfold repS; omega)]⟩
+    · obtain ⟨e1, e2⟩ := wrappingAdd_spec wr hb
+      exact ⟨_, rfl, e1, by rw [e2, wrapS_of_rep (M_pos w n) (by unfold repS; omega)]⟩
+  · exact ⟨_, rfl, wr, rfl⟩
+
+end
+end II
 end Bnum
